@@ -352,7 +352,8 @@ class Signal(object):
         constant: float
             Value to be added to time series
         """
-        self.reset_values(self.values + constant)
+        values = self.values.astype(float) if self.values.dtype.kind in 'iub' else self.values  # integer records add as floats
+        self.reset_values(values + constant)
 
     def add_series(self, series):
         """
@@ -364,7 +365,8 @@ class Signal(object):
             A series of values
         """
         if len(series) == self.npts:
-            self.reset_values(self.values + series)
+            values = self.values.astype(float) if self.values.dtype.kind in 'iub' else self.values  # integer records add as floats
+            self.reset_values(values + series)
         else:
             raise exceptions.SignalProcessingError("new series has different length to Signal")
 
